@@ -110,7 +110,7 @@ def merge(total, d):
             t = total.setdefault(k, {})
             for kk, vv in v.items():
                 t[kk] = t.get(kk, 0) + vv
-        elif k in ("sigs", "sigs_nontrivial"):
+        elif k in ("sigs", "sigs_nontrivial", "abs_states", "abs_trans"):
             total.setdefault(k, set()).update(v)
         elif isinstance(v, list):
             total.setdefault(k, []).extend(v)
@@ -375,6 +375,9 @@ def build_evidence(prop, tier, seed, total, by_sub, wall, wall_search, n_viol, k
         ),
         "samples": total.get("samples", [])[:8],
         "distinct_interleavings_all_runs": len(sigs),
+        "abstract_states_reached": len(total.get("abs_states", ())),
+        "abstract_transitions_reached": len(total.get("abs_trans", ())),
+        "abstract_state_definition": "(operation the parent is about to perform, workers of the current round alive / exited 0 / failed (each capped at 3), pipe of the newest queue empty|complete frame|partial frame, a result still in a feeder, write lock leaked, signal pending), sampled whenever the parent acts",
         "nontrivial_runs": total.get("nontrivial", 0),
         "runs_per_hour": runs / wall_search * 3600 if wall_search > 0 else 0,
         "os_workers": jobs,
